@@ -369,18 +369,15 @@ pub trait Check {
 /// Run cases [from, to) of a check under Miri, in `shards` parallel interpreter processes.
 /// A report of undefined behaviour (or a leak) ends the interpreter with an error: that is the finding.
 pub fn run_miri(prop: &str, ctx: &Ctx, from: u64, to: u64, shards: u64, merged: &mut Stats) {
-    let per = ((to - from) + shards - 1) / shards.max(1);
+    // shard s interprets the cases from + s, from + s + shards, …: families of very different cost are spread evenly
+    let shards = shards.max(1).min((to - from).max(1));
     let mut children = vec![];
     for s in 0..shards {
-        let a = from + s * per;
-        let b = (a + per).min(to);
-        if a >= b {
-            break;
-        }
+        let (a, b) = (from, to);
         let child = Command::new("cargo")
             .current_dir(format!("{}/harness", root()))
             .args(["+nightly", "miri", "run", "--offline", "-q", "--"])
-            .args(["inproc", prop, ctx.tier.name(), &ctx.seed.to_string(), &a.to_string(), &b.to_string()])
+            .args(["inproc", prop, ctx.tier.name(), &ctx.seed.to_string(), &a.to_string(), &b.to_string(), &shards.to_string(), &s.to_string()])
             .env("NLV_FLAVOUR", "miri")
             // the reference interpreter of the harness leaks reference-counted cycles (cyclic arrays); only C04, which
             // does not use it, lets Miri's leak checker speak
@@ -391,7 +388,7 @@ pub fn run_miri(prop: &str, ctx: &Ctx, from: u64, to: u64, shards: u64, merged: 
             .stderr(Stdio::piped())
             .spawn();
         match child {
-            Ok(c) => children.push((a, b, c)),
+            Ok(c) => children.push((a, format!("{} step {} offset {}", b, shards, s), c)),
             Err(e) => merged.inconclusive(format!("could not start Miri: {}", e)),
         }
     }
